@@ -115,9 +115,8 @@ def prepare_crate(work, variant='std'):
     os.makedirs(os.path.join(kc, '.cargo'))
     open(os.path.join(kc, '.cargo', 'config.toml'), 'w').write('[net]\noffline = true\n')
     frs = _fragments(variant)
-    if variant == 'std':
-        import klayout
-        frs['layout.rs'] = klayout.generate()
+    import klayout
+    frs['layout.rs'] = klayout.generate(variant)
     for frag, text in frs.items():
         tgt = FRAG_TARGET.get(frag)
         if not tgt:
@@ -224,7 +223,15 @@ def run_harnesses(names, work, log, extra_args=(), timeout=1200, jobs=8, target=
 
 def run_for_property(prop, tier, work, log):
     if prop == 'C18':
-        return _run_sel([h for h in NOALLOC if h[5] == 'quick' or tier == 'thorough'], work, log, extra_args=['--no-default-features'])
+        import klayout
+        sel = [h for h in NOALLOC if h[5] == 'quick' or tier == 'thorough']
+        # the per-type layout harnesses under the no-allocator configuration: the fields the std build is proved to decode are
+        # decoded identically by the heapless build (bounded: one concrete length per type)
+        slow = ('k_layout_t1', 'k_layout_t4', 'k_layout_t11', 'k_layout_t9', 'k_layout_t18', 'k_layout_t17')
+        for (name, rel, domain) in klayout.harness_table():
+            if tier == 'thorough' or name not in slow:
+                sel.append((name, 'lib.rs', ['C18'], 'bounded', 'no-allocator build: ' + domain, 'quick', 2400))
+        return _run_sel(sel, work, log, extra_args=['--no-default-features'])
     sel = [h for h in HARNESSES if (prop in h[2] or (h[3] == 'shimval' and prop in SHIM_PROPS)) and (h[5] == 'quick' or tier == 'thorough')]
     if tier == 'thorough' and prop in ('C01', 'C04', 'C10', 'C11', 'C12', 'C15'):
         # independent bounded cross-check of the Verus layout proofs: the real per-type parsers on one concrete length each
